@@ -32,14 +32,24 @@ def nontrivial(h):
 def run(ctx):
     quick = ctx.quick
     consts = {"Impls": {"plan_mutator", "msg_mutator"}, "Procs": {"identity"}, "Variants": {"FF"},
-              "MaxOpsId": 8 if quick else 13, "MaxOpsIns": 0, "MaxGens": 0, "MaxPost": 1 if quick else 2, "KeepHist": True,
+              "MaxOpsId": 8 if quick else 11, "MaxOpsIns": 0, "MaxGens": 0, "MaxPost": 1 if quick else 2, "KeepHist": True,
               "DumpVariants": {"FF"}}
     ctx.rule = ("cases = every maximal behaviour of PlanMutator.tla with the identity processor (all driver scripts x all "
                 "parent reactions up to MaxOpsId driver operations, both implementations), each replayed on the real function "
                 "and on the bare generator; distinct by the full event sequence; non-trivial = contains a throw, a close or a "
                 "raising parent.  Plus random grammar programs under random driver scripts, validated by TLC "
                 "(distinct by program text + script).")
-    # 1. the design, exhaustively, and the histories
+    # 1. the design, exhaustively (thorough: a deeper bound without replay first), and the histories
+    if not quick:
+        from harness.tlc import run_tlc, write_cfg
+        deep = dict(consts, MaxOpsId=14, DumpVariants=set())
+        res = run_tlc("PlanMutator", write_cfg(ctx.out / "C20_check_deep.cfg", deep, invariants=INVS), spec_dir=G.SD, tag="C20", timeout=3000)
+        ctx.add_tlc(res, f"PlanMutator identity exhaustive (check only) MaxOpsId={deep['MaxOpsId']}")
+        if not res.ok:
+            h = res.trace[-1][1].get("hist", ()) if res.trace else ()
+            ctx.violation(f"spec:{res.violated}", f"PlanMutator.tla: {res.kind} {res.violated} violated in the model; history {list(h)}",
+                          {"hist": [list(e) for e in h]})
+            return
     res, hists = G.tlc_histories(ctx, "C20_exhaustive", consts, INVS, tag="C20")
     ctx.add_tlc(res, f"PlanMutator identity exhaustive MaxOpsId={consts['MaxOpsId']}")
     if not res.ok:
@@ -54,8 +64,7 @@ def run(ctx):
     # 2. spec -> code
     for rec in hists:
         h = rec["h"]
-        key = (rec["impl"],) + tuple(tuple(e[:4]) for e in h)
-        ctx.case(key, nontrivial(h))
+        ctx.case(G.digest((rec["impl"], h)), nontrivial(h))
         _, _, _, singles = G.parse_history(h)
         exp = G.expected_events(h, singles)
         obs, env = G.replay_history(rec)
@@ -79,14 +88,14 @@ def run(ctx):
     # 3. code -> spec
     rng = random.Random(ctx.seed)
     traces, meta = [], []
-    n = 160 if quick else 4000
+    n = 160 if quick else 3000
     for i in range(n):
         impl = "plan_mutator" if i % 2 == 0 else "msg_mutator"
         with G.quiet_gc():
             t, src, bare = G.program_trace(rng, impl, size=rng.randint(4, 14 if quick else 20))
         traces.append(t)
         meta.append(src)
-        ctx.case((impl, src, tuple((e["op"], e["a"]) for e in t["ev"] if e["k"] == "call")))
+        ctx.case(G.digest((impl, src, [(e["op"], e["a"]) for e in t["ev"] if e["k"] == "call"])))
         if G.outs_of(t["ev"]) != G.outs_of(bare):
             ctx.violation(f"bare-diff:{impl}:program:{'|'.join(o[0] for o in G.outs_of(t['ev']))[:80]}",
                           f"{impl}(program) answers {G.outs_of(t['ev'])}, the bare program {G.outs_of(bare)}",
@@ -123,3 +132,7 @@ def report_traces(ctx, traces, meta, tag):
     for t in traces[:2]:
         ctx.sample({"trace": [(e["k"], e["g"], e["op"], e["a"]) for e in t["ev"]][:40]})
     return v, tags
+
+
+def replay(ctx, obj):
+    return G.replay_file(ctx, obj)
